@@ -1,6 +1,7 @@
 """C04 — Angles, matrices and vectors obey the rotation algebra (srctools/math.py, pure Python)."""
 from __future__ import annotations
 
+import json
 import math
 import random
 from decimal import Decimal
@@ -25,7 +26,12 @@ MANIFEST = dict(
               'interpreter instantiated with IEEE binary64 (Coq primitive floats) and of the rounding model against '
               'CPython floats; census of all in-place operator methods (class bodies + expanded exec() templates) with a '
               'decidable acceptance test; numeric oracle on the complete operand-type matrix, composed rotations, every in-place '
-              'operator / in-place rotation method and the conversion entry points; every stage under an exception / hang guard',
+              'operator / in-place rotation method and the conversion entry points; every stage under an exception / hang guard; '
+              'round 5: census of process state read from the whole of math.py (long-lived module-level / class-level objects, the '
+              'function bodies that read / update them, decorators, defaults, global declarations, reflective access, imports) with a '
+              'decidable acceptance test and a history-independence theorem, compared with the running module; history oracle: every '
+              'constructor call of a history of calls (objects handed out earlier modified by the caller, calls that raise) against '
+              'the same call alone in a NEW instance of the module, bit for bit',
     text='Theorems in Props/C04.v, about the objects read out of MatrixBase.from_angle/from_pitch/from_yaw/from_roll/'
          '_mat_mul/_vec_rot/transpose/_to_angle/inverse and the @ methods on every run: from_angle is orthonormal with '
          'determinant 1 and equals roll*pitch*yaw in the row-vector convention (axes fixed, handedness at +90 degrees); '
@@ -67,7 +73,14 @@ MANIFEST = dict(
          'copy / __deepcopy__ / freeze / thaw / _new_copy of the matrix classes are `return self` only for a frozen copy and '
          'otherwise field-for-field new objects of the right class (copies_ok, c04_matrix_copies_sound); '
          'c04_property composes all parts into one statement whose hypotheses are atan2_spec and the five '
-         'acceptance tests, and Props/C04Today.v proves the five tests for today\'s generated objects.  The trees, the table and the inverse program are '
+         'acceptance tests, and Props/C04Today.v proves the five tests for today\'s generated objects; round 5: for every census of '
+         'process state accepted by state_ok (no function reads a long-lived object that a function updates; nothing long-lived is '
+         'updated, no class / function attribute stored from a function, no caching decorator, no mutable default, no global '
+         'declaration, no reflective access, no foreign import) and every model of calls `run : args -> store -> result * store` of '
+         'which the census is a footprint, a call after ANY history of earlier calls returns what it returns in the initial state '
+         '(c04_history_independent, c04_state_ok_history_independent; the memo-table-keyed-by-the-text shape of seeded fault c04_8 is '
+         'rejected and a run with that footprint does answer with the first call\'s fallback: c04_memo_by_text_refuted); '
+         'c04_property_histories = c04_property + the history statement, proved for today\'s census in Props/C04Today.v.  The trees, the table and the inverse program are '
          'compared bit-for-bit with the running implementation; all identities are searched numerically within '
          '1e-9*max(1,|v|).',
     note='Exact real arithmetic except for the rounding theorems of _vec_rot/_mat_mul (rounded-real model of binary64: round '
@@ -83,7 +96,11 @@ MANIFEST = dict(
          'from another object, pickle, forward/left/up, from_angstr, to_matrix, every vector / angle conversion) are searched '
          'only; Vec.rotate is modelled for round_vals=False only.  The in-place census is a path classification (what each path returns, how many stores '
          'into the receiver precede it), not a value semantics: the values of += ... %= are compared with the pure operators by '
-         'the oracle only; @= has the full dispatch model.  The Cython twin _math.pyx cannot be built and is not verified.',
+         'the oracle only; @= has the full dispatch model.  Histories (round 5): that the state census is a FOOTPRINT of the real '
+         'calls (objects outside its write set keep their value, results depend on the store through its read set only) is a visible '
+         'hypothesis of the history theorems, not proved - the census is an ast analysis (trusted, compared with the objects, function '
+         'attributes, defaults and closure cells of the running module); instance attributes (__slots__) and objects the CALLER keeps '
+         'are outside it and covered by the history oracle (objects handed out must keep their value).  The Cython twin _math.pyx cannot be built and is not verified.',
 )
 
 CONCRETE = tr.CONCRETE
@@ -1254,6 +1271,47 @@ def fresh_math() -> Any:
     return m
 
 
+class in_fresh_math:
+    """Within the block `srctools.math` IS a new instance of the module (for code that imports it when it is called)."""
+    def __enter__(self) -> Any:
+        import sys
+        import srctools
+        import srctools.math as sm
+        self.old = sm
+        self.new = fresh_math()
+        sys.modules['srctools.math'] = self.new
+        srctools.math = self.new
+        return self.new
+
+    def __exit__(self, *exc: Any) -> None:
+        import sys
+        import srctools
+        sys.modules['srctools.math'] = self.old
+        srctools.math = self.old
+
+
+def history_dependent(found: dict) -> list[str]:
+    """The keys of the violations (other than those of the history oracle itself) whose input PASSES when it is the only thing a new
+    instance of the module is asked: the failure seen by the oracle - which had made thousands of calls before - depends on the
+    history of the process.  Their descriptions say so; the replay of such an input alone does not reproduce the failure."""
+    import contextlib
+    import io
+    out = []
+    for key, (what, rp) in sorted(found.items()):
+        if key.startswith(('history', 'hang:', 'exception:')) or not isinstance(rp, dict) or rp.get('kind') in (None, 'stage', 'history'):
+            continue
+        try:
+            with in_fresh_math(), contextlib.redirect_stdout(io.StringIO()):
+                rc = _replay({'replay': json.loads(json.dumps(rp))})
+        except Exception:      # noqa: BLE001 - it fails alone too
+            continue
+        if rc == 0:
+            out.append(key)
+            found[key] = (what + '  [HISTORY-DEPENDENT: this input passes as the first thing a new instance of srctools.math is asked; '
+                          'the failure needs the calls the oracle made before it - replaying the input alone does not reproduce it]', rp)
+    return out
+
+
 def _hist_entries() -> dict[str, Any]:
     E: dict[str, Any] = {}
 
@@ -1285,12 +1343,26 @@ def _hist_entries() -> dict[str, Any]:
     E['to_matrix(tuple)'] = lambda m, a: m.to_matrix(tuple(a))
     E['Vec.rotate_by_str'] = lambda m, a: m.Vec(*a[0]).rotate_by_str(*a[1])
     E['Matrix.to_angle'] = lambda m, a: m.Matrix.from_angle(*a).to_angle()
+    # the operators themselves (three numbers: an Euler angle; the other operand is fixed): a scratch object or a memo inside
+    # _rotate_angle / _mat_mul / from_angle would show up here
+    E['Vec @ Angle'] = lambda m, a: m.Vec(128.0, -64.0, 16.0) @ m.Angle(*a)
+    E['FrozenVec @ FrozenMatrix'] = lambda m, a: m.FrozenVec(128.0, -64.0, 16.0) @ m.FrozenMatrix.from_angle(*a)
+    E['Angle @ Angle'] = lambda m, a: m.Angle(*a) @ m.Angle(10.0, 20.0, 30.0)
+    E['FrozenAngle @ Angle'] = lambda m, a: m.FrozenAngle(*a) @ m.Angle(10.0, 20.0, 30.0)
+    E['Angle @ Matrix'] = lambda m, a: m.Angle(10.0, 20.0, 30.0) @ m.Matrix.from_angle(*a)
+    E['Matrix @ Matrix'] = lambda m, a: m.Matrix.from_angle(*a) @ m.Matrix.from_angle(10.0, 20.0, 30.0)
+    E['FrozenMatrix @ Angle'] = lambda m, a: m.FrozenMatrix.from_angle(*a) @ m.Angle(10.0, 20.0, 30.0)
+    E['Matrix.inverse'] = lambda m, a: m.Matrix.from_angle(*a).inverse()
+    E['Matrix.transpose'] = lambda m, a: m.Matrix.from_angle(*a).transpose()
+    E['Vec.rotate'] = lambda m, a: m.Vec(128.0, -64.0, 16.0).rotate(*a)
     return E
 
 
 HIST_ENTRIES = _hist_entries()
 HIST_TEXT_ENTRIES = ['Matrix.from_angstr', 'FrozenMatrix.from_angstr', 'Angle.from_str', 'FrozenAngle.from_str', 'Vec.from_str',
                      'FrozenVec.from_str', 'parse_vec_str']
+HIST_OPERATORS = ['Vec @ Angle', 'FrozenVec @ FrozenMatrix', 'Angle @ Angle', 'FrozenAngle @ Angle', 'Angle @ Matrix', 'Matrix @ Matrix',
+                  'FrozenMatrix @ Angle', 'Matrix.inverse', 'Matrix.transpose', 'Vec.rotate']
 HIST_TEXT_ROT = ['Vec @ from_angstr', 'FrozenVec @ from_angstr', 'Vec @ Angle.from_str', 'FrozenVec @ Angle.from_str', 'Vec.rotate_by_str']
 # texts that do not parse (the fallback numbers decide) and texts that do (the fallback must not matter)
 HIST_BAD_TEXTS = ['', '0 90', 'up', '12 34 x', ' ', '1 2 3 4', '0,90,0', '(', 'nan nan', '<>']
@@ -1354,14 +1426,16 @@ def run_history(steps: list, changed: list | None = None) -> list:
     with warnings.catch_warnings():
         warnings.simplefilter('ignore')
         for j, st in enumerate(steps):
-            if st[0] == 'call':
+            if st[0] in ('call', 'call!'):
                 try:
                     o = HIST_ENTRIES[st[1]](m, st[2])
                 except Exception as e:      # noqa: BLE001 - an exception is a result like any other: the same alone and in a history
                     o = e
-                objs.append(o)
                 out.append(hsnap(o))
                 base.append(out[-1])
+                # 'call!': the caller drops the result at once (its memory - and its id() - is free for the next object)
+                objs.append(o if st[0] == 'call' else None)
+                del o
             else:
                 k = st[1]
                 if 0 <= k < len(objs) and objs[k] is not None:
@@ -1377,7 +1451,7 @@ def run_history(steps: list, changed: list | None = None) -> list:
                 objs.append(None)
                 out.append(None)
                 base.append(None)
-            if changed is not None and st[0] == 'call':
+            if changed is not None and st[0] in ('call', 'call!'):
                 for i in range(j):
                     if objs[i] is not None and not isinstance(objs[i], BaseException) and hsnap(objs[i]) != base[i]:
                         changed.append((i, j, base[i], hsnap(objs[i])))
@@ -1389,6 +1463,7 @@ _ALONE: dict[str, Any] = {}
 
 
 def call_alone(st: list) -> Any:
+    st = ['call', st[1], st[2]]
     key = repr(st)
     if key not in _ALONE:
         _ALONE[key] = run_history([st])[0]
@@ -1402,7 +1477,7 @@ def history_problem(steps: list) -> tuple[int, str, str] | None:
     changed: list = []
     res = run_history(steps, changed)
     for i, (st, r) in enumerate(zip(steps, res)):
-        if st[0] != 'call':
+        if st[0] not in ('call', 'call!'):
             continue
         ch = next((c for c in changed if c[1] == i), None)
         if ch is not None:
@@ -1411,7 +1486,7 @@ def history_problem(steps: list) -> tuple[int, str, str] | None:
                     f'when step {i}, {st[1]}{tuple(st[2])!r}, ran: the caller\'s object is shared with the module')
         alone = call_alone(st)
         if r != alone:
-            before = sum(1 for s in steps[:i] if s[0] == 'call')
+            before = sum(1 for s in steps[:i] if s[0] in ('call', 'call!'))
             return (i, f'history:{st[1]}',
                     f'{st[1]}{tuple(st[2])!r} returned {hshow(r)} after {before} earlier call(s) in the same process, but '
                     f'{hshow(alone)} as the first call of a new process')
@@ -1471,7 +1546,7 @@ def gen_history(rng: random.Random) -> list:
             ang = list(gen_angle(rng)[0]) if rng.random() < 0.5 else list(rng.choice(HIST_FALLBACKS))
             e = rng.choice(['from_angle', 'from_angle(Angle)', 'from_angle(FrozenAngle)', 'from_pitch', 'from_yaw', 'from_roll',
                             'axis_angle', 'from_basis', '()', '(matrix)', 'Angle()', 'Vec()', 'to_matrix', 'Angle.from_basis',
-                            'to_angle', 'error'])
+                            'to_angle', 'error', 'operator', 'operator'])
             mc = rng.choice(['Matrix', 'FrozenMatrix'])
             if e in ('from_angle', 'from_angle(Angle)', 'from_angle(FrozenAngle)', '(matrix)'):
                 steps.append(['call', f'{mc}.{e}' if e != '(matrix)' else f'{mc}(matrix)', ang])
@@ -1497,6 +1572,8 @@ def gen_history(rng: random.Random) -> list:
                 steps.append(['call', k, [] if k == 'to_matrix(None)' else ang])
             elif e == 'to_angle':
                 steps.append(['call', 'Matrix.to_angle', ang])
+            elif e == 'operator':
+                steps.append(['call', rng.choice(HIST_OPERATORS), ang])
             else:   # a call that raises half-way, after which the caller carries on
                 steps.append(rng.choice([['call', f'{mc}.from_angle', ['x', 0.0, 0.0]], ['call', f'{mc}.from_basis', [[0.0, 0.0, 0.0], None, None]],
                                          ['call', f'{mc}.from_angstr', ['', 'x', 0.0, 0.0]], ['call', 'Angle()', ['a', 1.0, 2.0]],
@@ -1508,11 +1585,11 @@ def history_sweeps() -> list[list]:
     """Deterministic part: per text entry point, every text with every fallback, twice over (so every text has been seen before
     with another fallback), Matrix results modified in between."""
     out = []
-    texts = HIST_BAD_TEXTS[:6] + HIST_GOOD_TEXTS[:3]
+    texts = HIST_BAD_TEXTS[:5] + HIST_GOOD_TEXTS[:2]
     for e in HIST_TEXT_ENTRIES + HIST_TEXT_ROT:
         steps: list = []
         for _rnd in range(2):
-            for fb in HIST_FALLBACKS[:4]:
+            for fb in HIST_FALLBACKS[:3]:
                 for t in texts:
                     args = [t] + list(fb)
                     steps.append(['call', e, args if e in HIST_TEXT_ENTRIES else [[128.0, -64.0, 16.0], args]])
@@ -1553,10 +1630,26 @@ def history_handed_out() -> list[list]:
     return out
 
 
+def history_churn() -> list[list]:
+    """Deterministic part: 40 calls of operator / numeric entry points with different angles; the results of about half of them
+    (and all temporaries) are dropped at once, so that later objects reuse the memory - and the id() - of dead ones in ever
+    different patterns (a memo keyed by identity, a weak table that is not cleared, a free list of scratch objects)."""
+    out = []
+    pool = HIST_OPERATORS + ['Matrix.from_angle(Angle)', 'FrozenMatrix.from_angle(FrozenAngle)', 'Matrix.to_angle', 'to_matrix(Angle)',
+                             'Angle()', 'Matrix(matrix)']
+    for k in range(16):
+        rng = random.Random(1000 + k)
+        mine = [pool[k]] if k < len(pool) else pool
+        out.append([[rng.choice(['call', 'call!', 'call!']), rng.choice(mine + HIST_OPERATORS[:5]),
+                     [float(rng.randrange(-24, 25) * 15), float(rng.randrange(-24, 25) * 15), round(rng.uniform(-360, 360), 2)]]
+                    for _ in range(40)])
+    return out
+
+
 def search_histories(ck: Ck, found: dict) -> None:
     def one(steps: list, group: str) -> None:
         ck.count(group)
-        calls = [s for s in steps if s[0] == 'call']
+        calls = [s for s in steps if s[0] in ('call', 'call!')]
         for s in calls:
             ck.hist('history_entry_points', s[1])
         ck.hist('history_length', min(len(calls), 10) if len(calls) < 10 else '10+')
@@ -1567,13 +1660,15 @@ def search_histories(ck: Ck, found: dict) -> None:
             small = shrink_history(steps, pr[1])
             pr2 = history_problem(small) or pr
             found[pr2[1]] = (pr2[2] + f'; history of {len(small)} step(s): ' + '; '.join(
-                f'{s[1]}{tuple(s[2])!r}' if s[0] == 'call' else f'modify the result of step {s[1]}' for s in small)[:600],
+                f'{s[1]}{tuple(s[2])!r}' if s[0] != 'modify' else f'modify the result of step {s[1]}' for s in small)[:600],
                 {'kind': 'history', 'steps': small})
     for steps in history_sweeps():
         one(steps, 'history_sweeps')
     for steps in history_handed_out():
         one(steps, 'history_handed_out')
-    for _ in range(ck.budget(150, 2000)):
+    for steps in history_churn():
+        one(steps, 'history_churn')
+    for _ in range(ck.budget(120, 2000)):
         one(gen_history(ck.rng), 'history_cases')
     ck.sample({'history': gen_history(random.Random(ck.seed))})
 
@@ -1923,7 +2018,14 @@ def run(ck: Ck) -> None:
                'three outcomes (result / no-inverse / ZeroDivisionError) occur.  In-place forms: 7 in-place operators x 6 receiver '
                'classes x 9 operand classes (pairs the pure operator rejects are skipped and counted), 4 in-place rotation '
                'methods x rotation operand classes; conversions: ~45 entry points per random (vector, angle, rotation) triple; '
-               'float round trip: a third of the rotations with horizontal length in [0.0011, 0.1].')
+               'float round trip: a third of the rotations with horizontal length in [0.0011, 0.1].  Histories (round 5): sequences '
+               'of 2-9 public calls in one new instance of the module - text entry points (from_angstr, from_str, parse_vec_str, '
+               'rotate_by_str, Vec @ from_angstr / Angle.from_str, both classes each) with 1-2 unparsable and 0-1 parsable texts '
+               'reused with different fallbacks, numeric constructors (from_angle in three forms, from_pitch/yaw/roll, axis_angle, '
+               'from_basis, Matrix(), Matrix(m), Angle(), Vec(), to_matrix, to_angle), modifications of objects handed out earlier, '
+               'calls that raise; deterministic sweeps: every text x fallback twice over per text entry point, and per entry point '
+               'call / modify / call again / modify / call again / other arguments / call again; non-trivial = at least two calls; '
+               'distinct by the full list of steps.')
     ck.assumptions += [
         'Arithmetic in the theorems is over the real numbers; IEEE rounding is outside the model (property: "up to rounding"). '
         'The numeric oracle bounds the rounding error by 1e-9*max(1,|v|) on the sampled inputs only.',
@@ -1937,6 +2039,10 @@ def run(ck: Ck) -> None:
         'covered by the bit-exact correspondence of the whole method.',
     ]
     ck.assumptions += [
+        'Histories: "the same call alone in a new process" is the call in a NEW instance of srctools.math (the module body '
+        'executed again in an empty namespace): state kept outside math.py (another module, the interpreter) would be shared by both '
+        'sides; the state census reports every import from outside the standard library.',
+        'c04_history_independent: the census (read set, write set) is a footprint of the real calls - visible hypothesis.',
         'In-place protocol: a mutable receiver of an in-place operator must be the object returned (property: "in-place and frozen '
         'variants included"; a rebound name with a stale receiver breaks `for a in angles: a @= m`).',
         'c04_euler_roundtrip_binary64: the accuracy of atan2 / degrees / % 360 / radians / sin / cos in binary64 is one visible '
@@ -2143,9 +2249,16 @@ def run(ck: Ck) -> None:
     guarded(ck, found, 'search-inplace', search_inplace, ck, found)
     guarded(ck, found, 'search-conversions', search_conversions, ck, found)
     guarded(ck, found, 'search-histories', search_histories, ck, found)
+    hist_dep = history_dependent(found) if found else []
+    ck.extra['history_dependent_violations'] = hist_dep
     for key, (what, rp) in sorted(found.items()):
         ck.violation(key, what, rp)
     keys = set(found)
+    if hist_dep:
+        # a concrete input that fails after the oracle's earlier calls and passes alone: state that outlives a call is really used
+        ck.explain('instance:state_')
+        ck.explain('translate:RotState_gen')
+        ck.explain('correspondence:state-census')
     # A rejected dispatch row / failed proof is explained when the search exhibits the corresponding concrete failure.
     if any(k.startswith(('left-operand-mutated', 'right-operand-mutated', 'result-not-fresh', 'value-mismatch', 'unsupported',
                          'exception', 'result-kind', 'not-in-place')) for k in keys):
@@ -2330,7 +2443,7 @@ def _replay(data: dict) -> int:
         steps = r['steps']
         res = run_history(steps)
         for i, (st, out) in enumerate(zip(steps, res)):
-            if st[0] == 'call':
+            if st[0] in ('call', 'call!'):
                 alone = call_alone(st)
                 print(f'  step {i}: {st[1]}{tuple(st[2])!r} -> {hshow(out)}' + ('' if out == alone else f'   BUT alone in a new process: {hshow(alone)}'))
             else:
